@@ -143,7 +143,7 @@ static bool plan_parse(DPlan *P, uint64_t *seed, const char *path) {
 }
 
 /* ---------------- misbehaving peers ---------------- */
-typedef struct BadState { PBad *b; int idx; bool skipped, sent_hostile, standalone_loaded; bool connected; bool got_error; bool got_eof; bool got_exit; int replies; size_t reply_bytes; int err; bool done; } BadState;
+typedef struct BadState { PBad *b; int idx; bool skipped, sent_hostile, standalone_loaded; bool ref_crashed; bool connected; bool got_error; bool got_eof; bool got_exit; int replies; size_t reply_bytes; int err; bool done; } BadState;
 static char sock_path[128];
 static void put_hdr(uint8_t *h, uint8_t ver, uint8_t type, uint32_t len) {
     h[0] = ver; h[1] = type; h[2] = 0; h[3] = 0; h[4] = (uint8_t)len; h[5] = (uint8_t)(len >> 8); h[6] = (uint8_t)(len >> 16); h[7] = (uint8_t)(len >> 24);
@@ -253,8 +253,11 @@ static void *bad_peer(void *arg) {
         Buf hb = {0}; char desc[128] = ""; char key[64];
         snprintf(key, sizeof key, "%s.%d.h%d", b->prog, b->tok, b->arg);
         Ref *ref = ref_lookup_key(key);
-        /* scoping rule: mutants on which the standalone VM itself crashes or spins are C13's business */
-        if (!ref || !ref->valid || !hostile_make(m->d, m->n, (uint32_t)b->arg, &hb, desc, sizeof desc)) { st->skipped = true; break; }
+        /* scoping rule: a mutant on which the standalone VM spins forever is skipped (one spinning session is not a
+         * violation and only burns the budget).  A mutant that CRASHES the standalone VM is still sent: inside the daemon
+         * that crash takes every session down, which is exactly what C18 forbids. */
+        if (!ref || (!ref->valid && !ref->crashed) || !hostile_make(m->d, m->n, (uint32_t)b->arg, &hb, desc, sizeof desc)) { st->skipped = true; break; }
+        st->ref_crashed = ref->crashed;
         st->sent_hostile = true; st->standalone_loaded = ref->deser_ok && ref->instrs > 0;
         put_hdr(h, VMD_PROTO_VERSION, VMD_MSG_LOAD_EXEC, (uint32_t)hb.len); send_all(fd, h, sizeof h); send_all(fd, hb.d, hb.len);
         drain_replies(fd, st, 0);
@@ -445,8 +448,9 @@ static void fam_run(uint64_t seed, const RunOpts *o, Result *r) {
     probe(r, "cop_sessions", S.execs > (uint64_t)(P.mode == 1 ? nd : 0) ? S.execs - (uint64_t)(P.mode == 1 ? nd : 0) : 0);
     { int kc[BK_NKINDS] = {0}; for (int i = 0; i < P.nbad; i++) kc[P.b[i].kind]++;
       for (int k = 0; k < BK_NKINDS; k++) if (kc[k]) { char nm[48]; snprintf(nm, sizeof nm, "bad_%s", bk_name[k]); probe(r, nm, (uint64_t)kc[k]); } }
+    for (int i = 0; i < P.nbad; i++) if (P.b[i].kind == BK_HOSTILE && bs[i].ref_crashed) probe(r, "hostile_sent_although_standalone_crashes", 1);
     { uint64_t hs = 0, hk = 0, hl = 0; for (int i = 0; i < P.nbad; i++) { hs += bs[i].sent_hostile; hk += bs[i].skipped; hl += bs[i].standalone_loaded; }
-      probe(r, "hostile_sent", hs); probe(r, "hostile_skipped_standalone_crash_or_spin", hk); probe(r, "hostile_that_standalone_executes", hl); }
+      probe(r, "hostile_sent", hs); probe(r, "hostile_skipped_standalone_spins", hk); probe(r, "hostile_that_standalone_executes", hl); }
     probe(r, "cop_killed_in_session", (uint64_t)copkills_fired);
     int nk = 0; for (int i = 0; i < P.nclients; i++) if (P.c[i].kill_sys && WIFSIGNALED(cl[i]->status)) nk++;
     probe(r, "clients_killed", (uint64_t)nk);
